@@ -150,10 +150,16 @@ fn campaign(prop: &str, target: &str, runs: u64, seed: u64, max_len: u32, rep: &
             let msg = msg.strip_prefix("VIOLATION ").map(|s| s.to_string()).unwrap_or(if msg.is_empty() { "crash: deadly signal / sanitizer report".to_string() } else { format!("panic: {msg}") });
             rep.viol(format!("{prop}/fuzz/{target}/{}", crate::hrun::category(&msg)), format!("{msg} [libFuzzer artefact {name}, {} bytes]", data.len()), json!({"fuzz_target": target, "input_hex": crate::c18::hex(&data), "name": name}));
         } else {
-            rep.inconclusive.push(format!("fuzz {target}: libFuzzer reported {name} (slow unit / memory limit; not a violation)"));
+            // oom-/timeout-/slow-unit artefacts of the instrumented build (2 GB malloc limit,
+            // ASan overhead): the input decides - run it through the plain entry point
+            match run_input_isolated(target, &data) {
+                Ok(()) => rep.class(&format!("fuzz.{target}.memory_or_time_artefacts_passing_in_plain_build")),
+                Err(m) if m.starts_with("timeout") => rep.inconclusive.push(format!("fuzz {target}: libFuzzer reported {name} and the input also exceeds the watchdog in the plain build")),
+                Err(m) => rep.viol(format!("{prop}/fuzz/{target}/{}", crate::hrun::category(&m)), format!("{m} [libFuzzer artefact {name}, {} bytes]", data.len()), json!({"fuzz_target": target, "input_hex": crate::c18::hex(&data), "name": name})),
+            }
         }
     }
-    if !out.status.success() && rep.viols.is_empty() && rep.inconclusive.is_empty() {
+    if !out.status.success() && !std::fs::read_dir(&art).map(|mut d| d.next().is_some()).unwrap_or(false) {
         rep.inconclusive.push(format!("fuzz {target}: libFuzzer exited with {:?} without an artefact", out.status.code()));
     }
     let _ = std::fs::remove_dir_all(&corpus);
